@@ -137,6 +137,7 @@ type genDyn struct {
 type genPiece struct {
 	konst string
 	dyn   *genDyn
+	alts  []string // one of these constants (a value looked up in a constant table)
 }
 
 // genSplice is one classified splice.
@@ -424,6 +425,11 @@ func (a *genWalker) pieces(e ast.Expr) ([]genPiece, bool) {
 				}
 				return ps, ok
 			}
+		}
+	case *ast.IndexExpr:
+		// a value looked up in a package-level table of string constants (`scalarTypes[t.Kind]`)
+		if vals, _, ok := a.constTable(x.X); ok {
+			return []genPiece{{alts: vals}}, true
 		}
 	case *ast.SliceExpr:
 		// a prefix/suffix of a repeated one-byte constant (`indent[:n]` of strings.Repeat("\t", k)) is again zero or
@@ -717,7 +723,7 @@ func (a *genWalker) feedExpr(l lexState, e ast.Expr) lexState {
 	// `q := "\"" + name + "\""` must not split the text it is spliced into)
 	var merged []genPiece
 	for _, p := range ps {
-		if p.dyn == nil && len(merged) > 0 && merged[len(merged)-1].dyn == nil {
+		if p.dyn == nil && p.alts == nil && len(merged) > 0 && merged[len(merged)-1].dyn == nil && merged[len(merged)-1].alts == nil {
 			merged[len(merged)-1].konst += p.konst
 			continue
 		}
@@ -731,13 +737,31 @@ func (a *genWalker) feedExpr(l lexState, e ast.Expr) lexState {
 		if a.curSeg == nil {
 			a.curSeg = &genFrag{Pos: e.Pos(), Fn: a.curFn, At: l}
 		}
-		if p.dyn != nil {
+		if p.dyn != nil || p.alts != nil {
 			a.curSeg.Text += "\x00"
 		} else {
 			a.curSeg.Text += p.konst
 		}
 	}
 	for i, p := range ps {
+		if p.alts != nil {
+			// each alternative is constant text of the template; all must leave the output in the same mode
+			var out lexState
+			for k, alt := range p.alts {
+				a.Frags = append(a.Frags, genFrag{e.Pos(), a.curFn, alt, l})
+				o := l.feedStr(alt)
+				if k == 0 {
+					out = o
+				} else if j, ok := joinLex(out, o); ok {
+					out = j
+				} else {
+					a.problem(e, fmt.Sprintf("the entries of a constant table leave the output in different lexical modes (%q)", alt))
+				}
+			}
+			l = out
+			a.lastConst = ""
+			continue
+		}
 		if p.dyn != nil {
 			prev := a.lastConst
 			next, hasNext := "", false
@@ -844,6 +868,48 @@ func (a *genWalker) recordStateFields(lhs, rhs ast.Expr) {
 			set(st.Field(i), el)
 		}
 	}
+}
+
+// formatEmitter: fd forwards (format string, args ...interface{}) to fmt.Fprintf on the buffer; returns the index of
+// the format parameter, or -1.
+func formatEmitter(info *types.Info, fd *ast.FuncDecl) int {
+	if fd.Body == nil || len(fd.Body.List) != 1 || fd.Type.Params == nil || len(fd.Type.Params.List) < 2 {
+		return -1
+	}
+	last := fd.Type.Params.List[len(fd.Type.Params.List)-1]
+	if _, ok := last.Type.(*ast.Ellipsis); !ok || len(last.Names) != 1 {
+		return -1
+	}
+	es, ok := fd.Body.List[0].(*ast.ExprStmt)
+	if !ok {
+		return -1
+	}
+	c, ok := es.X.(*ast.CallExpr)
+	if !ok || !c.Ellipsis.IsValid() || len(c.Args) != 3 {
+		return -1
+	}
+	se, ok := c.Fun.(*ast.SelectorExpr)
+	if !ok || se.Sel.Name != "Fprintf" {
+		return -1
+	}
+	if id, ok := se.X.(*ast.Ident); !ok || id.Name != "fmt" {
+		return -1
+	}
+	fid, ok := c.Args[1].(*ast.Ident)
+	aid, ok2 := c.Args[2].(*ast.Ident)
+	if !ok || !ok2 || info.Uses[aid] != info.Defs[last.Names[0]] {
+		return -1
+	}
+	idx := 0
+	for _, f := range fd.Type.Params.List {
+		for _, n := range f.Names {
+			if info.Defs[n] == info.Uses[fid] {
+				return idx
+			}
+			idx++
+		}
+	}
+	return -1
 }
 
 // concatArgs: a1 + a2 + ... (what a variadic emitter writes).
@@ -963,6 +1029,14 @@ func (a *genWalker) stmt(s ast.Stmt, l lexState, rets *[]lexState) (lexState, bo
 						}
 						return l, false
 					}
+					// `func (g *gen) pf(format string, args ...interface{}) { fmt.Fprintf(&g.out, format, args...) }`
+					if fi := formatEmitter(a.info, fd); fi >= 0 && !call.Ellipsis.IsValid() && fi < len(call.Args) {
+						if e, ok := a.formatExpr(call.Args[fi], call.Args[fi+1:]); ok {
+							return a.feedExpr(l, e), false
+						}
+						a.problem(call, "formatted write to the output buffer with a format that could not be classified: "+types.ExprString(call))
+						return l, false
+					}
 					a.bindParams(fd, call)
 					return a.callFn(fd, l, call), false
 				}
@@ -978,12 +1052,30 @@ func (a *genWalker) stmt(s ast.Stmt, l lexState, rets *[]lexState) (lexState, bo
 						}
 						return l, false
 					}
+					// `func (g *gen) pf(format string, args ...interface{}) { fmt.Fprintf(&g.out, format, args...) }`
+					if fi := formatEmitter(a.info, fd); fi >= 0 && !call.Ellipsis.IsValid() && fi < len(call.Args) {
+						if e, ok := a.formatExpr(call.Args[fi], call.Args[fi+1:]); ok {
+							return a.feedExpr(l, e), false
+						}
+						a.problem(call, "formatted write to the output buffer with a format that could not be classified: "+types.ExprString(call))
+						return l, false
+					}
 					a.bindParams(fd, call)
 					return a.callFn(fd, l, call), false
 				}
 			}
 		}
 	case *ast.AssignStmt:
+		if len(x.Lhs) == 2 && len(x.Rhs) == 1 {
+			// name, ok := table[key]
+			if ix, ok := x.Rhs[0].(*ast.IndexExpr); ok {
+				if id, ok := x.Lhs[0].(*ast.Ident); ok {
+					if obj := a.info.Defs[id]; obj != nil && types.Identical(obj.Type(), types.Typ[types.String]) {
+						a.locals[obj] = ix
+					}
+				}
+			}
+		}
 		if len(x.Lhs) == 1 && len(x.Rhs) == 1 {
 			// g := &generator{pkg: pkgname, ...} / g.pkg = pkgname: string members of the generator's state are
 			// values like locals (keyed by the field object)
@@ -1025,6 +1117,9 @@ func (a *genWalker) stmt(s ast.Stmt, l lexState, rets *[]lexState) (lexState, bo
 				a.stmts(x.Body.List, l, rets)
 			}
 			return l, false
+		}
+		if x.Init != nil {
+			a.stmt(x.Init, l, rets)
 		}
 		thenL, thenDead := a.branch(x.Body.List, l, rets)
 		elseL, elseDead := l, false
@@ -1525,6 +1620,35 @@ func (a *genWalker) packageVarInit(obj types.Object) ast.Expr {
 		return nil
 	}
 	return init
+}
+
+// constTable: e names a package-level map (or slice) variable of the generator, never reassigned, whose initialiser is
+// a composite literal with constant string values; returns the values and the key expressions in source order.
+func (a *genWalker) constTable(e ast.Expr) ([]string, []ast.Expr, bool) {
+	id, ok := e.(*ast.Ident)
+	if !ok {
+		return nil, nil, false
+	}
+	cl, ok := a.packageVarInit(a.info.Uses[id]).(*ast.CompositeLit)
+	if !ok || len(cl.Elts) == 0 {
+		return nil, nil, false
+	}
+	var vals []string
+	var keys []ast.Expr
+	for _, el := range cl.Elts {
+		v := el
+		var k ast.Expr
+		if kv, isKV := el.(*ast.KeyValueExpr); isKV {
+			k, v = kv.Key, kv.Value
+		}
+		tv, ok := a.info.Types[v]
+		if !ok || tv.Value == nil || tv.Value.Kind() != constant.String {
+			return nil, nil, false
+		}
+		vals = append(vals, constant.StringVal(tv.Value))
+		keys = append(keys, k)
+	}
+	return vals, keys, true
 }
 
 // decls: the functions and the methods of the generator package (methods keyed "<name>()").
